@@ -1,23 +1,51 @@
 /-
   C19 — JSON serialisation round-trips and is valid JSON.  Property theorems about the model
   `Rws.Json` (the definitions the driver executes).  Helper lemmas: RwsProofs/Lemmas/Decimal.lean,
-  RwsProofs/Lemmas/JsonSplit.lean, RwsProofs/Lemmas/JsonObject.lean.
+  RwsProofs/Lemmas/JsonSplit.lean, RwsProofs/Lemmas/JsonObject.lean, RwsProofs/Lemmas/JsonNested.lean,
+  RwsProofs/Lemmas/JsonUtf8.lean.
 
+  Stage 0 (byte level): `C19_read_chars` — the single-character read of the scanners (`read_utf8_char` +
+    `String::from_utf8`), repeated over the UTF-8 encoding of ANY text, yields exactly the characters of that
+    text (this is what makes the character-level model of the byte cursors exact; fix F24d).
   Stage 1 (typed arrays), for ALL lists, any length:
     C19_list_int_<w>   parse_as_list_<w>(to_json_from_list_<w>(xs)) = Ok(xs)   for xs inside the width
     C19_list_bool, C19_list_null
-    C19_list_string    under `strOk`: every character ASCII, no `"`, no `\`  (exactly what the
-                       splitter needs to find the end of the string; see the witnesses below)
-  Floats are opaque tokens (see Rws/Json.lean); `C19_list_float_partial` is the statement for
-  tokens that are plain decimal numerals, which is what Rust's Display prints for a finite f64.
+    C19_list_string    under `strOk`: no `"`, no `\` in any string — every other character of any script,
+                       brackets included (exactly the property's quantifier; see the witnesses below)
+    C19_list_object    the splitter hands back the elements of an array of nested values (`nestedOk`)
+  Floats are opaque tokens (see Rws/Json.lean): no theorem speaks about them, the correspondence run does.
+  Stages 2–4 (objects): C19_object_partial (hypothesis `wfObj`: decidable), C19_object_written (the same for everything
+    the writers produce, to any depth: C19_written_wf shows the decidable hypothesis holds for it), C19_object_absent, C19_object_empty.
 -/
 import Rws.Json
 import RwsProofs.Lemmas.Decimal
 import RwsProofs.Lemmas.JsonSplit
 import RwsProofs.Lemmas.JsonObject
+import RwsProofs.Lemmas.JsonNested
+import RwsProofs.Lemmas.JsonUtf8
 import RwsProofs.C20Json
 namespace Rws.C19
 open Rws Rws.Json
+
+/-! ## Stage 0: the byte cursor -/
+
+/-- the scanners' single-character read (`json::read_utf8_char` + `String::from_utf8`), repeated to the end of the
+    input, turns the UTF-8 encoding of any text back into its characters: reading character by character loses nothing,
+    whatever the script (F24d) -/
+theorem C19_read_chars (text : Text) : readChars (text.flatMap String.utf8EncodeChar) = some text :=
+  readCharsFuel_encode text _ (Nat.le_refl _)
+
+/-- one read: the character at the cursor, the cursor moved by exactly its bytes -/
+theorem C19_read_char (c : Char) (rest : List UInt8) : readUtf8Char (String.utf8EncodeChar c ++ rest) = some (c, rest) :=
+  readUtf8Char_encode c rest
+
+example : readChars [0x61, 0xC3, 0xA9, 0xE2, 0x82, 0xAC, 0xF0, 0x9F, 0x98, 0x80] = some "aé€😀".toList := by decide +kernel
+-- bytes that are not UTF-8 are an error, never a character: truncated sequences (also a lead byte at the very end), a lone
+-- continuation byte, overlong forms, a surrogate, a scalar above U+10FFFF, the bytes F8..FF
+example : readChars [0xC3] = none ∧ readChars [0x61, 0xE2, 0x82] = none ∧ readChars [0xF0, 0x9F, 0x98] = none ∧ readChars [0x80] = none ∧
+    readChars [0xC0, 0xAF] = none ∧ readChars [0xE0, 0x80, 0xAF] = none ∧ readChars [0xED, 0xA0, 0x80] = none ∧
+    readChars [0xF4, 0x90, 0x80, 0x80] = none ∧ readChars [0xF8, 0x88, 0x80, 0x80, 0x80] = none ∧ readChars [0xC3, 0x28] = none := by
+  decide +kernel
 
 /-! ## Stage 1: typed arrays -/
 
@@ -67,7 +95,8 @@ theorem C19_list_null (xs : List Unit) : parseListNull (listNullToJson xs) = .ok
   · intro x _; exact goodTok_null
   · intro x _; rfl
 
-/-- strings the array code round-trips: every character ASCII and neither `"` nor `\` -/
+/-- strings the code round-trips: no character is `"` or `\` (`strCharOk c = (c != '"' && c != '\\')`); any other
+    character — non-ASCII of every encoded length, brackets, control characters — is carried -/
 def strOk (s : Text) : Bool := s.all strCharOk
 
 theorem C19_list_string (xs : List Text) (h : xs.all strOk = true) :
@@ -78,14 +107,35 @@ theorem C19_list_string (xs : List Text) (h : xs.all strOk = true) :
   · intro x hx; exact goodTok_string x (h x hx)
   · intro x _; exact itemString_quoted x
 
-example : [" a,b] ".toList, [], "{x: 1}".toList].all strOk = true := by decide
+example : [" a,b] ".toList, [], "{x: 1}".toList, "é€😀".toList, "]}[{".toList, "\t".toList].all strOk = true := by decide
+/-- F24d (fixed): a non-ASCII character (2-, 3- and 4-byte encodings; first, middle, last; right before the closing quote) -/
+example : parseListString (listStringToJson ["é".toList]) = .ok ["é".toList] := by decide +kernel
+example : parseListString (listStringToJson ["é€😀".toList, "aßb".toList, "x漢".toList, "\u00a0".toList]) =
+    .ok ["é€😀".toList, "aßb".toList, "x漢".toList, "\u00a0".toList] := by decide +kernel
+/-- F24f (fixed), array side: brackets inside the strings of an array of strings / of an array nested in an array -/
+example : parseListString (listStringToJson ["]".toList, "[".toList, "}{".toList]) = .ok ["]".toList, "[".toList, "}{".toList] := by decide +kernel
+example : splitIntoVectorOfStrings "[[\"]\"],{\"a\": \"}\"}]".toList = .ok ["[\"]\"]".toList, "{\"a\": \"}\"}".toList] := by decide +kernel
 -- outside the hypothesis the statement is false (kernel-checked witnesses; replayed on the real code):
-/-- F24d (open): a non-ASCII character -/
-theorem C19_list_string_nonascii_violated : parseListString (listStringToJson ["é".toList]) = .err := by decide +kernel
 /-- a backslash ends the string one character later -/
 theorem C19_list_string_backslash_violated : parseListString (listStringToJson ["a\\b".toList]) = .err := by decide +kernel
 /-- a quote ends the string -/
 theorem C19_list_string_quote_violated : parseListString (listStringToJson ["a\"b".toList]) ≠ .ok ["a\"b".toList] := by decide +kernel
+
+/-- arrays of nested values (`JSONArrayOfObjects::to_json` lays the elements out with `,\r\n`; `from_json` splits and then
+    parses every element with the object scanner, `C19_object_partial`): the splitter hands back exactly the elements,
+    whatever their strings hold (`nestedOk`: the counters, blind to string literals, meet at the last character) -/
+theorem C19_list_object (objs : List Text) (h : objs.all (nestedOk '{' '}') = true) :
+    splitIntoVectorOfStrings (listObjectToJson objs) = .ok objs := by
+  simp only [List.all_eq_true] at h
+  exact split_listObjectToJson objs (fun t ht => goodTok_obj t (h t ht))
+
+/-- the same for the `,` layout of the typed writers, elements nested arrays or nested objects -/
+theorem C19_list_nested (items : List Text) (h : items.all (fun t => nestedOk '{' '}' t || nestedOk '[' ']' t) = true) :
+    splitIntoVectorOfStrings (listToJson items) = .ok items := by
+  simp only [List.all_eq_true, Bool.or_eq_true] at h
+  exact split_listToJson items (fun t ht => (h t ht).elim (goodTok_obj t) (goodTok_arr t))
+
+example : [toJsonString [(⟨['b'], tString⟩, { string := some "}{ü]".toList })], toJsonString []].all (nestedOk '{' '}') = true := by decide +kernel
 
 /-! ## Stages 2–4: the object writer and the object scanner
 
@@ -94,10 +144,11 @@ theorem C19_list_string_quote_violated : parseListString (listStringToJson ["a\"
   Proved below as `C19_object_partial` for every property kind except floats (opaque tokens: the
   statement for them needs the grammar lemma `isRustFloat (floatText tok)` for the tokens Rust's Display
   prints, which is not done), with absent properties handled by `C19_object_absent`, the empty object by
-  `C19_object_empty`.  Nested values are any text that satisfies `nestedOk` (all ASCII, bracket counters meet
-  exactly at the last character) — what `to_json_string` / the list writers produce for values whose
-  strings hold no brackets; strings with brackets inside nested values are the open finding F24f, non-ASCII
-  strings the open finding F24d (witnesses below). -/
+  `C19_object_empty`.  Nested values are any text that satisfies `nestedOk` (the bracket counters, which do not count
+  inside string literals, meet exactly at the last character).  `C19_written_nested_obj / _arr` (below) prove that this
+  holds for EVERY text built the way `to_json_string` and the list writers build theirs from strings without `"` and `\`
+  (any other character, brackets and non-ASCII included), to any depth: since the fixes F24d and F24f the hypothesis
+  excludes nothing the writers can produce from the property's value space. -/
 
 /-- a property as a struct's `get_property` produces it -/
 inductive Field where
@@ -108,7 +159,7 @@ def Field.type : Field → Text
 def Field.value : Field → JSONValue
   | .str s => { string := some s } | .bool b => { bool := some b } | .int n => { i128 := some n }
   | .obj t => { object := some t } | .arr t => { array := some t }
-/-- hypotheses, all decidable: strings ASCII without quote/backslash, integers in i128, nested texts bracket-balanced -/
+/-- hypotheses, all decidable: strings without quote/backslash, integers in i128, nested texts bracket-balanced outside their string literals -/
 def Field.wf : Field → Bool
   | .str s => strOk s | .bool _ => true | .int n => tyI128.inRange n
   | .obj t => nestedOk '{' '}' t | .arr t => nestedOk '[' ']' t
@@ -196,6 +247,106 @@ theorem C19_object_partial (o : Obj) (h : wfObj o = true) :
     rw [List.append_assoc, h0, scan_fields (x :: xs) (by simp) h []]
     simp
 
+/-! ### nested values the writers produce satisfy the hypothesis, to any depth -/
+
+/-- a field whose value the writers produce from the property's value space (to any depth): a string without `"` and `\`,
+    a boolean, an i128, the `to_json_string` text of such fields under names without `"` and `\`, a list of such values
+    in either list layout (`WVal`, `objText`: Lemmas/JsonNested.lean) -/
+def Field.written : Field → Prop
+  | .str s => strOk s = true
+  | .bool _ => True
+  | .int n => tyI128.inRange n = true
+  | .obj t => ∃ fields : List (Text × Text), t = objText fields ∧ (∀ f ∈ fields, nestedNameOk f.1 = true) ∧ (∀ f ∈ fields, WVal f.2)
+  | .arr t => ∃ items : List Text, (t = listToJson items ∨ t = listObjectToJson items) ∧ ∀ x ∈ items, WVal x
+
+private theorem toJsonString_toProps (o : Obj) : toJsonString (toProps o) = objText (o.map (fun nf => (nf.1, nf.2.text))) := by
+  have hl : (toProps o).filterMap (fun pv => propText pv.1 pv.2) = o.map (fun nf => propLine nf.1 nf.2.text) := by
+    unfold toProps
+    rw [List.filterMap_map]
+    induction o with
+    | nil => rfl
+    | cons x xs ih => simp only [List.filterMap_cons, Function.comp, propText_field, List.map_cons, ih]
+  unfold toJsonString objText
+  rw [hl, List.map_map]
+  rfl
+
+/-- the hypothesis of `C19_object_partial` holds for every written field -/
+theorem C19_written_wf (f : Field) (h : f.written) : f.wf = true := by
+  cases f with
+  | str s => exact h
+  | bool b => rfl
+  | int n => exact h
+  | obj t => obtain ⟨fields, rfl, hn, hv⟩ := h; exact nestedOk_objText fields hn hv
+  | arr t =>
+    obtain ⟨items, ht, hv⟩ := h
+    rcases ht with rfl | rfl
+    · exact nestedOk_listToJson items hv
+    · exact nestedOk_listObjectToJson items hv
+
+/-- the text of a written field is a written value (so written fields nest) -/
+private theorem written_wval (f : Field) (h : f.written) : WVal f.text := by
+  cases f with
+  | str s =>
+    have h' : strOk s = true := h
+    exact .str s (by simpa [strOk] using h')
+  | bool b => exact .bool b
+  | int n => exact .int n
+  | obj t => obtain ⟨fields, rfl, hn, hv⟩ := h; exact .obj fields hn hv
+  | arr t =>
+    obtain ⟨items, ht, hv⟩ := h
+    rcases ht with rfl | rfl
+    · exact .list items hv
+    · exact .listObj items hv
+
+/-- `to_json_string` of written fields is a written nested object -/
+theorem C19_written_nested_obj (o : Obj) (hn : ∀ nf ∈ o, nestedNameOk nf.1 = true) (hw : ∀ nf ∈ o, nf.2.written) :
+    (Field.obj (toJsonString (toProps o))).written := by
+  refine ⟨o.map (fun nf => (nf.1, nf.2.text)), toJsonString_toProps o, ?_, ?_⟩
+  · intro f hf; simp only [List.mem_map] at hf; obtain ⟨nf, h, rfl⟩ := hf; exact hn nf h
+  · intro f hf; simp only [List.mem_map] at hf; obtain ⟨nf, h, rfl⟩ := hf; exact written_wval nf.2 (hw nf h)
+
+/-- the typed list writers and `JSONArrayOfObjects::to_json` produce written nested arrays -/
+theorem C19_written_nested_arr_string (xs : List Text) (h : xs.all strOk = true) : (Field.arr (listStringToJson xs)).written := by
+  refine ⟨xs.map (fun s => '"' :: (s ++ ['"'])), Or.inl rfl, ?_⟩
+  intro t ht; simp only [List.mem_map] at ht; obtain ⟨s, hs, rfl⟩ := ht
+  simp only [List.all_eq_true, strOk] at h
+  exact .str s (h s hs)
+theorem C19_written_nested_arr_int (xs : List Int) : (Field.arr (listIntToJson xs)).written := by
+  refine ⟨xs.map intToDec, Or.inl rfl, ?_⟩
+  intro t ht; simp only [List.mem_map] at ht; obtain ⟨n, _, rfl⟩ := ht; exact .int n
+theorem C19_written_nested_arr_bool (xs : List Bool) : (Field.arr (listBoolToJson xs)).written := by
+  refine ⟨xs.map boolText, Or.inl rfl, ?_⟩
+  intro t ht; simp only [List.mem_map] at ht; obtain ⟨b, _, rfl⟩ := ht; exact .bool b
+theorem C19_written_nested_arr_null (xs : List Unit) : (Field.arr (listNullToJson xs)).written := by
+  refine ⟨xs.map (fun _ => ['n','u','l','l']), Or.inl rfl, ?_⟩
+  intro t ht; simp only [List.mem_map] at ht; obtain ⟨_, _, rfl⟩ := ht; exact .null
+theorem C19_written_nested_arr_object (os : List Obj) (hn : ∀ o ∈ os, ∀ nf ∈ o, nestedNameOk nf.1 = true) (hw : ∀ o ∈ os, ∀ nf ∈ o, nf.2.written) :
+    (Field.arr (listObjectToJson (os.map (fun o => toJsonString (toProps o))))).written := by
+  refine ⟨os.map (fun o => toJsonString (toProps o)), Or.inr rfl, ?_⟩
+  intro t ht; simp only [List.mem_map] at ht; obtain ⟨o, ho, rfl⟩ := ht
+  exact written_wval _ (C19_written_nested_obj o (hn o ho) (hw o ho))
+
+/-- the object round trip for everything the writers produce: names without `"` and `:`, fields written (to any depth) -/
+theorem C19_object_written (o : Obj) (hn : ∀ nf ∈ o, nameOk nf.1 = true) (hw : ∀ nf ∈ o, nf.2.written) :
+    parseAsProperties (toJsonString (toProps o)) = .ok (toProps o) := by
+  apply C19_object_partial
+  simp only [wfObj, List.all_eq_true, Bool.and_eq_true]
+  exact fun nf h => ⟨hn nf h, C19_written_wf nf.2 (hw nf h)⟩
+
+/-- depth three with brackets, quotes-free punctuation and non-ASCII text at every level -/
+example : (Field.obj (toJsonString (toProps [("k}".toList, .str "]é{".toList),
+    ("in".toList, .obj (toJsonString (toProps [("ü[".toList, .arr (listStringToJson ["}".toList, "😀]".toList]))])))]))).written :=
+  C19_written_nested_obj _ (by decide) (by
+    intro nf h
+    simp only [List.mem_cons, List.not_mem_nil, or_false] at h
+    rcases h with rfl | rfl
+    · show strOk _ = true; decide
+    · exact C19_written_nested_obj _ (by decide) (by
+        intro nf h
+        simp only [List.mem_cons, List.not_mem_nil, or_false] at h
+        subst h
+        exact C19_written_nested_arr_string _ (by decide)))
+
 /-- absent properties (value field not set, or a type the writer does not know) leave no trace in the text -/
 theorem C19_object_absent (kvs : Props) :
     toJsonString kvs = toJsonString (kvs.filter (fun pv => (propText pv.1 pv.2).isSome)) := by
@@ -213,19 +364,24 @@ theorem C19_object_absent (kvs : Props) :
 /-- F24b (fixed): the object without properties, as the writer prints it -/
 theorem C19_object_empty : parseAsProperties (toJsonString []) = .ok [] := by decide +kernel
 
--- non-vacuity: a flat object with every kind, negatives, nested object and array
-example : wfObj [("a".toList, .str "x, y: {z}".toList), ("b".toList, .bool false), ("c".toList, .int (-170141183460469231731687303715884105728)),
+-- non-vacuity: a flat object with every kind, negatives, nested object and array, non-ASCII text and brackets in strings at both levels
+example : wfObj [("a".toList, .str "x, y: {z}".toList), ("ä€".toList, .str "]}é😀[{".toList), ("n".toList, .obj "{\r\n  \"e}\": \"]}ü\"\r\n}".toList),
+    ("m".toList, .arr "[\"]\",\"[é\"]".toList), ("b".toList, .bool false), ("c".toList, .int (-170141183460469231731687303715884105728)),
     ("d".toList, .obj "{\r\n  \"e\": [1,2]\r\n}".toList), ("f".toList, .arr "[\"p\",\"q\"]".toList)] = true := by decide +kernel
 /-- F24a (fixed): negative integer property -/
 example : parseAsProperties "{\"a\": -5}".toList = .ok [(⟨['a'], tInteger⟩, { i128 := some (-5) })] := by decide +kernel
 
-/-- F24d (open): a non-ASCII string value is rejected by the object scanner -/
-theorem C19_object_nonascii_violated :
-    parseAsProperties (toJsonString [(⟨['a'], tString⟩, { string := some ['é'] })]) = .err := by decide +kernel
-/-- F24f (open): a closing brace inside a string of a nested object ends the nested value early -/
-theorem C19_object_nested_bracket_violated :
-    parseAsProperties (toJsonString [(⟨['a'], tObject⟩, { object := some (toJsonString [(⟨['b'], tString⟩, { string := some ['}'] })]) })]) = .err := by
+/-- F24d (fixed): a non-ASCII string value, a non-ASCII name; the old failing input now round-trips -/
+example : parseAsProperties (toJsonString [(⟨['a'], tString⟩, { string := some ['é'] })]) = .ok [(⟨['a'], tString⟩, { string := some ['é'] })] := by
   decide +kernel
+example : parseAsProperties (toJsonString [(⟨"ключ€".toList, tString⟩, { string := some "😀x漢".toList }), (⟨['ß'], tBool⟩, { bool := some true })]) =
+    .ok [(⟨"ключ€".toList, tString⟩, { string := some "😀x漢".toList }), (⟨['ß'], tBool⟩, { bool := some true })] := by decide +kernel
+/-- F24f (fixed): a closing brace inside a string of a nested object no longer ends the nested value; the old failing input now round-trips -/
+example : parseAsProperties (toJsonString [(⟨['a'], tObject⟩, { object := some (toJsonString [(⟨['b'], tString⟩, { string := some ['}'] })]) })]) =
+    .ok [(⟨['a'], tObject⟩, { object := some (toJsonString [(⟨['b'], tString⟩, { string := some ['}'] })]) })] := by
+  decide +kernel
+example : parseAsProperties (toJsonString [(⟨['a'], tArray⟩, { array := some (listStringToJson ["]".toList, "[{".toList, "é]".toList]) })]) =
+    .ok [(⟨['a'], tArray⟩, { array := some (listStringToJson ["]".toList, "[{".toList, "é]".toList]) })] := by decide +kernel
 /-- a name with a colon is cut at the wrong place -/
 theorem C19_object_colon_name_violated :
     parseAsProperties (toJsonString [(⟨['a',':','b'], tBool⟩, { bool := some true })]) ≠
